@@ -120,7 +120,11 @@ def check(ctx: Ctx) -> None:
             try:
                 xa = h.call(EXTRACT_TREE, cond_tree(ea), sanitize=True)
                 xb = h.call(EXTRACT_TREE, cond_tree(eb), sanitize=True)
-                return ("ret", fields_of(it.binop(ast.Add(), xa, xb, None, None)))
+                before = (fields_of(xa), fields_of(xb))
+                total = fields_of(it.binop(ast.Add(), xa, xb, None, None))
+                if (fields_of(xa), fields_of(xb)) != before:
+                    return ("operands-changed", fields_of(xa), fields_of(xb))
+                return ("ret", total)
             except PyRaise as err:
                 return ("raise", err.exc.cls)
 
